@@ -555,7 +555,7 @@ pub fn run(prop: &'static str, tier: Tier) -> ! {
         for a in accs {
             merge(&mut total, a);
         }
-        families.push(json!({"family": format!("history safety: every history of <= {depth} operations from next / peek_n(2) / advance_to(peeked end) / set_offset(every boundary, |x|+1) / set_mode(k), then next() until None; invariants per segment since the last reset"), "configurations": cfgs.len(), "inputs": "{a,b,é,\\n,1}^<=3", "exhaustive": true}));
+        families.push(json!({"family": format!("history safety: every history of <= {depth} operations from next / peek_n(2) / peek_n(usize::MAX) / advance_to(peeked end) / set_offset(every boundary, |x|+1) / set_mode(k), position(0|floor|end) after every operation, then next() until None through WithPositions; invariants per segment since the last reset"), "configurations": cfgs.len(), "inputs": "{a,b,é,\\n,1}^<=3", "exhaustive": true}));
     }
 
     let n_disagreeing = total.viol.total();
